@@ -5,18 +5,19 @@
   others only their setting part, digest length and alphabet.
 -/
 import Xc.Api
+import Xc.Prim.Cores
 
 namespace Xc
 
 def zeros (n : Nat) : Bytes := List.replicate n 0
 
 def D0 : Digests where
-  md5crypt := fun _ _ => zeros 16
-  sha256crypt := fun _ _ _ => zeros 32
-  sha512crypt := fun _ _ _ => zeros 64
-  sunmd5 := fun _ _ _ => zeros 16
-  sha1crypt := fun _ _ _ => zeros 20
-  nt := fun _ => zeros 16
+  md5crypt := Cores.md5cryptCore
+  sha256crypt := Cores.sha256cryptCore
+  sha512crypt := Cores.sha512cryptCore
+  sunmd5 := Cores.sunmd5Core
+  sha1crypt := Cores.sha1cryptCore
+  nt := Cores.ntCore
   desHash := fun _ _ _ => zeros 8
   bsdi := fun _ _ _ => zeros 8
   bf := fun _ _ _ _ => zeros 23
@@ -24,7 +25,7 @@ def D0 : Digests where
   yescrypt := fun P _ _ => if yesKdfParamsOk P then some (zeros 32) else none
   gostOuter := fun _ _ _ => zeros 32
 
-def exactMethods : List Method := []
+def exactMethods : List Method := [.md5crypt, .sha256crypt, .sha512crypt, .sunmd5, .sha1crypt, .nt]
 
 /-- number of trailing characters of a successful result that depend on the digest -/
 def digestChars (m : Method) (H : Bytes) : Nat :=
